@@ -51,8 +51,9 @@ SPEC = {
         "linearisation in trace order is sequential w.r.t. the specification in which a call fails with ErrStoreClosed iff it saw "
         "the flag set (seqOk); C05_linearizable_close proves that the recorded history of every trace is nevertheless linearizable "
         "w.r.t. the full C04 contract with Close (the straddling calls are moved before the Close point; they were invoked before it)",
-        "flushkv is not part of the protocol model; its mutators run the wrapped mutation and then Flush(): a Close in between makes "
-        "the call answer ErrStoreClosed although the mutation took effect (known finding, exhibited by the forced-schedule scenario)",
+        "flushkv is not part of the protocol model; its mutators run the wrapped mutation and then Flush(): a Close in between made "
+        "the call answer ErrStoreClosed although the mutation took effect (exhibited by the forced-schedule scenario 'flushclose', "
+        "fixed in /repo b5d5462; the scenario stays as a regression test)",
     ],
     "manifest": {
         "text": "Theorems over every reachable configuration of the protocol model, for every number of goroutines, every scripts, "
@@ -72,8 +73,8 @@ SPEC = {
                 "overlapping realms, atomic logical clock, Close in a quarter of them) decided by the Lean checker and, independently, by a Go checker; "
                 "watchdog for hangs; thorough tier under -race.",
         "note": "Data-race freedom is proved for the model's lock discipline only; for the real code it is supported by the race "
-                "detector runs. Known finding: behind flushkv a mutation racing Close can take effect and still answer ErrStoreClosed "
-                "(forced-schedule scenario, design/C05.md). Trusted: Lean kernel, the protocol model (tied by skeleton obligations + histories), RWMutex semantics.",
+                "detector runs. Fixed finding (b5d5462): behind flushkv a mutation racing Close took effect and still answered "
+                "ErrStoreClosed (forced-schedule scenario, design/C05.md). Trusted: Lean kernel, the protocol model (tied by skeleton obligations + histories), RWMutex semantics.",
         "technique": "Lean 4 invariant proofs over an interleaving model with arbitrary thread pool (ghost linearisation, lock "
                      "counting invariants, rank-based deadlock freedom) + verified-witness linearizability checking of recorded histories",
     },
